@@ -35,9 +35,13 @@ impl<W: Write> DefaultProtocolWriter<W> {
     fn write_type_and_value(&mut self, type_id: u8, value: u64, mut size: u8) {
         if self.ok {
             size = size.saturating_sub(4);
-            let mut r = self
-                .writer
-                .write_u8(type_id | (((value >> size) as u8) & 0x0F));
+            // A 68 bit number has no bits above the 64 of the value: its leading nibble is 0.
+            let nibble = if size >= 64 {
+                0u8
+            } else {
+                ((value >> size) as u8) & 0x0F
+            };
+            let mut r = self.writer.write_u8(type_id | nibble);
             while size > 0 && r.is_ok() {
                 size = size.saturating_sub(8);
                 r = self.writer.write_u8((value >> size) as u8);
@@ -177,7 +181,7 @@ impl<W: Write> ProtocolWriter<W> for DefaultProtocolWriter<W> {
         } else if value < (1u64 << 60) {
             self.write_type_and_value(FSM_PROTOCOL_TYPE_INT_60BIT, value, 60);
         } else {
-            self.write_type_and_value(FSM_PROTOCOL_TYPE_INT_68BIT, value, 64);
+            self.write_type_and_value(FSM_PROTOCOL_TYPE_INT_68BIT, value, 68);
         }
     }
 
